@@ -12,7 +12,7 @@ theorem holds for every `Env`.
 -/
 import TraitsVerif.Lemmas.ValOrder
 import TraitsVerif.Lemmas.ValCSrc7
-import TraitsVerif.Lemmas.ValPySrc5
+import TraitsVerif.Lemmas.ValPySrc6
 import TraitsVerif.Generated.ValidateTables
 namespace TraitsVerif.Props.C03
 open TraitsVerif TraitsVerif.Py.Value TraitsVerif.Model.Val
@@ -317,19 +317,20 @@ theorem C03_fast_is_source_tuple (E : Env) (hA : AdaptSome E) (cdflt : Val) (fue
 
 open TraitsVerif.Model.PyVSrc in
 /-- `pyValidate` is the interpretation of the source text of the Python `validate` methods:
-for every covered trait type (`pyCovered5`: Int, Float, Complex, Str, Bytes, Bool, CInt …
+for every covered trait type (`pyCovered6`: Int, Float, Complex, Str, Bytes, Bool, CInt …
 CBool, float and int Range with every bound / exclusivity combination (NaN included), Enum, Map,
 Instance in every adapt mode, Type, This, Callable (through its super() call), the None member
-of Union, typed Tuple (the generator over zip(types, value)), Union and TraitCompound (validate
+of Union, typed Tuple (the generator over zip(types, value)) and BaseTuple (the enumerate /
+append loop under a bare except, tuples and lists), Union and TraitCompound (validate
 and slow_validate: the loops over the alternatives), the legacy handlers TraitCoerceType,
 TraitCastType, TraitInstance, TraitFunction, TraitEnum, TraitMap (trait_handlers.py), and their Base* classes) and every value
 (`noTE`: no member validator yields the junk result `raised traitError`),
 running the translated method of trait_types.py the handler's class defines, with the
 attributes its constructor stored, gives exactly `pyValidate E t v`. -/
 theorem C03_py_is_source (E : Env) (hE : CastIdem E) (hA : TraitsVerif.Model.CSrc.AdaptSome E)
-    (t : TraitType) (v : Val) (h : pyCovered5 t = true) (hn : noTE E t v) :
+    (t : TraitType) (v : Val) (h : pyCovered6 t = true) (hn : noTE E t v) :
     srcPy E t v = some (pyValidate E t v) :=
-  srcPy_eq5 E hE hA t v h hn
+  srcPy_eq6 E hE hA t v h hn
 
 open TraitsVerif.Model.CSrc TraitsVerif.Model.PyVSrc in
 /-- The property statement literally about the two SOURCES: under the conditions of
@@ -340,14 +341,15 @@ theorem C03_sources_agree_partial (E : Env) (hE : CastIdem E) (hA : AdaptSome E)
     (inner : Desc → Val → Res) (cdflt : Val) (fuel : Nat) (t : TraitType) (d : Desc) (v : Val)
     (hd : descOf E t = some d) (hc : t.clean = true) (hv : v.notTupleSub = true)
     (hr : ∀ e, pyValidate E t v ≠ .raised e) (hok : descOk E inner cdflt fuel d)
-    (hp : pyCovered5 t = true) (hn : noTE E t v) :
+    (hp : pyCovered6 t = true) (hn : noTE E t v) :
     srcAlone E inner cdflt fuel d v = (srcPy E t v).map norm := by
   rw [C03_source_agrees_python_partial E hE hA inner cdflt fuel t d v hd hc hv hr hok,
     C03_py_is_source E hE hA t v hp hn]
   rfl
 
-example : TraitsVerif.Model.PyVSrc.pyCovered5 (.noFast (.rangeI (some 0) none true false)) = true := rfl
-example : TraitsVerif.Model.PyVSrc.pyCovered5 (.functionH 3) = true := rfl
+example : TraitsVerif.Model.PyVSrc.pyCovered6 (.noFast (.rangeI (some 0) none true false)) = true := rfl
+example : TraitsVerif.Model.PyVSrc.pyCovered6 (.functionH 3) = true := rfl
+example : TraitsVerif.Model.PyVSrc.pyCovered6 (.baseTuple [.int, .str]) = true := rfl
 
 open TraitsVerif.Model.PyVSrc in
 /-- "A compound accepts iff some alternative accepts, with the result of the first accepting
